@@ -360,22 +360,30 @@ class StubRandom:
         raise symx.Abort('random.%s is not modelled' % name)
 
 
-def random_worker(args):
-    from bardolph.runtime import bardolph_math
-    res = report.WorkResult('random')
-    world.start_function_trace()
-    res.sites.update(['random-range', 'random-complete'])
-    text = 'assign a %d\nassign b %d\nprint [random a b]\n' % (SENT_BASE + 1, SENT_BASE + 2)
+def _random_explore(res, bardolph_math, halves):
+    """[random a b] with symbolic bounds: whole numbers, or (halves) multiples of 1/2 written as {k / 2} -- float bounds,
+    integral or not, with at least one whole number between them."""
+    lit = '{%d / 2}' if halves else '%d'
+    text = 'assign a %s\nassign b %s\nprint [random a b]\n' % (lit % (SENT_BASE + 1), lit % (SENT_BASE + 2))
     world.configure(())
     p = Parser()
     assert p.parse(text), p.get_errors()
     prog = p.get_program()
     slots = [inst for inst in prog if isinstance(inst.param0, int) and not isinstance(inst.param0, bool) and inst.param0 > SENT_BASE]
+    assert len(slots) == 2
+    lim = 40 if halves else 50
+
+    def shown(k):
+        return lit % k
 
     def harness(ctx):
-        a = ctx.int('a', -50, 50)
-        b = ctx.int('b', -50, 50)
-        ctx.assume(a.e <= b.e)
+        a = ctx.int('a', -lim, lim)
+        b = ctx.int('b', -lim, lim)
+        if halves:
+            # some whole number lies within the bounds: ceil(a/2) <= floor(b/2)
+            ctx.assume(-z3.ToInt(-a.e / 2) <= z3.ToInt(b.e / 2))
+        else:
+            ctx.assume(a.e <= b.e)
         stub = StubRandom(ctx)
         saved = bardolph_math.py_random
         bardolph_math.py_random = stub
@@ -393,35 +401,43 @@ def random_worker(args):
             res.out_of_bound += 1
             continue
         a, b, stub, net = out
+        la, lb = (a.e / 2, b.e / 2) if halves else (a.e, b.e)
         res.nontrivial += 1
         outs = [e[1] for e in net.trace if e[0] == 'out']
         if net.aborted or len(outs) != 1 or len(stub.calls) != 1:
             verdict, model = ctx.prove(False)
             if verdict == 'sat':
                 mv = ctx.model_values(model)
-                msg = replay_random(mv['a'], mv['b'])
-                res.violation('random|aborts', '[random a b] with a=%s b=%s: %s' % (mv['a'], mv['b'], net.aborted or outs),
+                msg = replay_random_value(shown(mv['a']), shown(mv['b']), None)
+                res.violation('random|aborts', '[random %s %s]: %s\n  replay: %s' % (shown(mv['a']), shown(mv['b']), net.aborted or outs, msg),
                               inputs=mv, replayed=msg is not None)
             continue
         r = outs[0]
         # (1) range: a <= n <= b, integer
-        verdict, model = ctx.prove(z3.And(symx.term(r) >= a.e, symx.term(r) <= b.e, z3.IsInt(symx.term(r))))
+        verdict, model = ctx.prove(z3.And(symx.term(r) >= la, symx.term(r) <= lb, z3.IsInt(symx.term(r))))
         res.reached.add('random-range')
         if verdict == 'sat':
             mv = ctx.model_values(model)
-            res.violation('random|out of range', '[random %s %s] can return %s' % (mv['a'], mv['b'], symx.concrete(r, model)), inputs=mv, replayed=True)
-        # (2) completeness: every n in [a, b] is produced by some value the generator may return
+            gen = [v for k, v in mv.items() if k.startswith('rand_')]
+            msg = replay_random_value(shown(mv['a']), shown(mv['b']), gen[0] if gen else None)
+            res.violation('random|out of range', '[random %s %s] can return %s\n  replay: %s' % (shown(mv['a']), shown(mv['b']), symx.concrete(r, model), msg),
+                          inputs=mv, replayed=msg is not None)
+        # (2) completeness: every whole n in [a, b] is produced by some value the generator may return
         kind, ca, cb, v = stub.calls[0]
         vconst = [c for name, c in ctx.vars.items() if name.startswith('rand_')][0]
         n = z3.Int('n_target')
         w = z3.Int('w')
         rw = z3.substitute(symx.term(r), (z3.ToReal(vconst), z3.ToReal(w)))
         lo, hi = (symx.term(ca), symx.term(cb) - 1) if kind == 'randrange' else (symx.term(ca), symx.term(cb))
-        unreachable = z3.And(z3.ToReal(n) >= a.e, z3.ToReal(n) <= b.e,
+        unreachable = z3.And(z3.ToReal(n) >= la, z3.ToReal(n) <= lb,
                              z3.ForAll([w], z3.Implies(z3.And(z3.ToReal(w) >= lo, z3.ToReal(w) <= hi), rw != z3.ToReal(n))))
         s = z3.Solver()
         s.set('timeout', 20000)
-        s.add(a.e >= -50, a.e <= 50, b.e >= -50, b.e <= 50, a.e <= b.e, unreachable)
+        # the path condition on the bounds (everything that does not speak about the generator's return value)
+        for c in ctx.solver.assertions():
+            if not _mentions(c, vconst):
+                s.add(c)
+        s.add(unreachable)
         res.stats.queries += 1
         t = time.time()
         rr = str(s.check())
@@ -434,17 +450,42 @@ def random_worker(args):
             res.stats.refuted += 1
             res.stats.q_sat += 1
             m = s.model()
-            av = m.eval(list(ctx.vars.values())[0], model_completion=True).as_long()
-            bv = m.eval(list(ctx.vars.values())[1], model_completion=True).as_long()
+            av = m.eval(ctx.vars['a'], model_completion=True).as_long()
+            bv = m.eval(ctx.vars['b'], model_completion=True).as_long()
             nv = m.eval(n, model_completion=True).as_long()
-            msg = replay_random_never(av, bv, nv)
+            msg = replay_random_never(shown(av), shown(bv), nv)
             res.violation('random|value never produced',
-                          '[random %d %d] can never return %d although %d <= %d <= %d (generator call: %s(%s, %s))\n  replay: %s'
-                          % (av, bv, nv, av, nv, bv, kind, av, bv, msg), inputs={'a': av, 'b': bv, 'n': nv}, replayed=msg is not None)
+                          '[random %s %s] can never return %d although it lies within the bounds (generator call: %s)\n  replay: %s'
+                          % (shown(av), shown(bv), nv, kind, msg), inputs={'a': shown(av), 'b': shown(bv), 'n': nv}, replayed=msg is not None)
         else:
             res.stats.inconclusive += 1
             res.stats.q_unknown += 1
             res.inconclusive.append('random completeness: solver unknown')
+
+
+def _mentions(expr, const):
+    todo, seen = [expr], set()
+    while todo:
+        e = todo.pop()
+        if e.get_id() in seen:
+            continue
+        seen.add(e.get_id())
+        if z3.is_const(e) and e.decl().kind() == z3.Z3_OP_UNINTERPRETED and e.eq(const):
+            return True
+        if z3.is_quantifier(e):
+            todo.append(e.body())
+        else:
+            todo.extend(e.children())
+    return False
+
+
+def random_worker(args):
+    from bardolph.runtime import bardolph_math
+    res = report.WorkResult('random')
+    world.start_function_trace()
+    res.sites.update(['random-range', 'random-complete'])
+    for halves in (False, True):
+        _random_explore(res, bardolph_math, halves)
     # the same call with the real random module and bounds whose value is integral but whose Python type is float
     # (the proxies are type-agnostic; randint is not)
     saved_ctx = symx.Ctx.cur
@@ -468,13 +509,53 @@ def random_worker(args):
     finally:
         world.install_real_mode()
         symx.Ctx.cur = saved_ctx
-    res.sample({'script': text, 'stub': 'random.randrange/randint return any value within their documented contract'})
+    res.sample({'script': 'assign a A assign b B print [random a b] (A, B whole, or {k / 2})', 'stub': 'random.randrange/randint return any value within their documented contract'})
     res.functions = world.functions_seen()
     return res
 
 
-def replay_random(a, b):
-    return 'see message'
+def replay_random_value(a, b, value):
+    """Concrete replay of `print [random a b]` (a, b as written in the script).  value: what the generator is to return
+    (checked against the contract of the call actually made) -- None: the real generator."""
+    from bardolph.runtime import bardolph_math
+    import fractions
+
+    class Fixed:
+        def randint(self, lo, hi):
+            if lo != int(lo) or hi != int(hi) or isinstance(lo, float) or isinstance(hi, float):
+                raise TypeError('randint needs integers')
+            if not lo <= value <= hi:
+                raise ValueError('the replayed value is outside what randint(%r, %r) may return' % (lo, hi))
+            return value
+
+        def randrange(self, lo, hi=None, step=1):
+            lo, hi = (0, lo) if hi is None else (lo, hi)
+            if not lo <= value < hi:
+                raise ValueError('the replayed value is outside what randrange(%r, %r) may return' % (lo, hi))
+            return value
+    saved_ctx = symx.Ctx.cur
+    symx.Ctx.cur = None
+    saved = bardolph_math.py_random
+    try:
+        if value is not None:
+            bardolph_math.py_random = Fixed()
+        net = world.configure(())
+        p = Parser()
+        if not p.parse('assign a %s assign b %s print a print b print [random a b]' % (a, b)):
+            return None
+        m = Machine(); m.reset(); m.run(p.get_program())
+        outs = [e[1] for e in net.trace if e[0] == 'out']
+        if net.aborted:
+            return 'aborts: %s' % net.aborted if len(outs) >= 2 and fractions.Fraction(outs[0]).__ceil__() <= fractions.Fraction(outs[1]).__floor__() else None
+        if len(outs) != 3:
+            return 'printed %r' % outs
+        lo, hi, got = outs
+        if isinstance(got, bool) or got != int(got) or not lo <= got <= hi:
+            return 'bounds %r and %r, returned %r' % (lo, hi, got)
+        return None
+    finally:
+        bardolph_math.py_random = saved
+        symx.Ctx.cur = saved_ctx
 
 
 def replay_random_never(a, b, n):
@@ -489,7 +570,7 @@ def replay_random_never(a, b, n):
         for seed in range(400):
             bardolph_math.py_random.seed(seed)
             net = world.configure(())
-            p = Parser(); p.parse('print [random %d %d]' % (a, b))
+            p = Parser(); p.parse('print [random %s %s]' % (a, b))
             m = Machine(); m.reset(); m.run(p.get_program())
             outs = [e[1] for e in net.trace if e[0] == 'out']
             if outs:
@@ -545,6 +626,12 @@ def run(tier, seed):
     items = [{'kind': 'random'}, {'kind': 'deep'}]
     for c in arithmetic_cases():
         items.append({'kind': 'arith', 'case': c, 'timeout_ms': 10000, 'max_paths': 500, 'budget_s': 40})
+    # calls as operands and arguments whose callee returns out of nested loops (the caller's pending operands stay)
+    from vlib import shapes
+    for i, prog in enumerate(shapes.enumerate_all(shapes.return_from_loops_program())):
+        c = scripth.Case(prog, specs=shapes.POPULATIONS['three'], tag='call-operand-%d' % i, vm_steps=2500, ref_steps=900)
+        if '{10 + [find' in c.text or 'show [find' in c.text:
+            items.append({'kind': 'arith', 'case': c, 'timeout_ms': 10000, 'max_paths': 300, 'budget_s': 20})
     # structure: all operator vectors up to the bound, in every position
     plan = [(1, POSITIONS, False, None), (2, POSITIONS, True, None), (3, ['print', 'if'], True, None), (4, ['print', 'if'], True, 4000 if tier == 'quick' else 60000)]
     if tier == 'thorough':
